@@ -104,6 +104,8 @@ class Profile:
         cdict = {}
         for line in fc:
             line = line.strip()
+            if not line:
+                continue
             var, val = line.split("=", 1)
             # support "approach" and "retract" from pre 1.8.0 versions
             var = var.strip()
@@ -116,6 +118,13 @@ class Profile:
             cdict[var] = val
 
         for key in cdict:
+            if key.startswith("fit param"):
+                # "fit param <name> value" and "fit param <name> vary"
+                if key.endswith("vary"):
+                    cdict[key] = cdict[key].lower() == "true"
+                else:
+                    cdict[key] = float(cdict[key])
+                continue
             default = DEFAULTS[key]
             if isinstance(default, list):
                 val = cdict[key].split(",")
